@@ -1020,6 +1020,10 @@ class CExec:
             x, y = self.ev(st, argn[0]), self.ev(st, argn[1])
             self.assumptions.add("copysign(x, y) returns |x| with the sign bit of y (C11 7.12.11.1)")
             return CV(ty, z3.If(z3.fpIsNegative(y.t), z3.fpNeg(z3.fpAbs(x.t)), z3.fpAbs(x.t)))
+        if name in ("floor", "floorf", "__builtin_floor", "__builtin_floorf"):
+            x = self.ev(st, argn[0])
+            self.assumptions.add("floor(x): the largest integral value not greater than x, exact (C11 7.12.9.2 / IEEE roundToIntegralTowardNegative)")
+            return CV(ty, z3.fpRoundToIntegral(z3.RTN(), x.t))
         if name in ("fmod", "fmodf"):
             x, y = self.ev(st, argn[0]), self.ev(st, argn[1])
             return CV(ty, self.fmod(st, x.t, y.t, ty))
